@@ -22,15 +22,15 @@ FUNCS = {
 BOUNDS = {
     "C01": {"quick": "36 call skeletons (28 named + 8 seeded random), padded gates <= 4, commitments <= 2, <= 2 randomized closures (registered at the end, first, or between two paired allocations), capacities {pad, pad+1, 2*pad} rotated, shadow curve rotated over secq256k1 / zorro / curve25519; field values symbolic, except in the mixed / literal skeletons where coefficients, constant terms and witness values are the literals 0, 1, -1, 2, ... (deterministic cycle)",
             "thorough": "34 named + 80 seeded random skeletons (every fourth up to padded 16, linear combinations limited to 6 variables there), x 3 capacity pairs x 3 shadow curves; plus EVERY call sequence with <= 4 first-phase calls over {commit, allocate_multiplier, allocate, multiply, constrain} followed by no closure or one closure of <= 2 calls over {challenge, allocate, multiply, constrain} (16401 skeletons, capacity pair and curve rotated); field values symbolic"},
-    "C02": {"quick": "15 (skeleton, error plan) cases, padded gates <= 4; error values symbolic (any value)", "thorough": "quick cases + every C01 thorough skeleton with a symbolic error on every constraint and every gate wire, 3 shadow curves; plus the same for EVERY call sequence with <= 3 first-phase and <= 2 second-phase calls (3276 skeletons less those with nothing to violate, curve rotated)"},
+    "C02": {"quick": "19 (skeleton, error plan) cases, padded gates <= 4, incl. violations inside the first of two registered closures; error values symbolic (any value)", "thorough": "quick cases + every C01 thorough skeleton with a symbolic error on every constraint and every gate wire, 3 shadow curves; plus the same for EVERY call sequence with <= 3 first-phase and <= 2 second-phase calls (3276 skeletons less those with nothing to violate, curve rotated)"},
     "C03": {"quick": "7 skeletons, padded gates <= 4, commitments <= 2; proof object arbitrary", "thorough": "21 skeletons incl. 10 seeded random (padded gates <= 8) + EVERY call sequence with <= 3 first-phase and <= 2 second-phase calls (3276), 3 curves each"},
-    "C04": {"quick": "33 (skeleton, field) cases: every field of a padded-2 one-phase proof, second-phase points and final scalars of a two-phase proof, blinding scalars of a one-gate proof, round points of a padded-4 proof, 4 swaps; concrete companions: all single-field alterations / negations / round insertion and removal / coordinated forgeries on 3 skeletons, and bit flips with stride 3 on one curve", "thorough": "+ every field (11 points, 3 scalars, 4 round points, a, b) of a padded-4 two-phase proof, 3 curves"},
-    "C05": {"quick": "23 deviations on circuits with <= 3 commitments and <= 2 gates (incl. commitment-framed application data, a small-order component on curve25519, a deviation inside the first of two randomized closures); concrete companion: the 5 coefficient / constant deviations natively, alone and as a +d / -d pair of statements in one batch", "thorough": "+ 5 deviations on a padded-4 two-phase circuit with 3 commitments, 3 curves"},
+    "C04": {"quick": "38 (skeleton, field) cases: every field of a padded-2 one-phase proof, second-phase points and final scalars of a two-phase proof, blinding scalars of a one-gate proof, the final scalars and t_x of gate-free proofs (one- and two-phase), round points of a padded-4 proof, 4 swaps; concrete companions: all single-field alterations / identity substitutions / negations / round insertion and removal, each also through batch verification (alone, before and after the untouched proof), and coordinated forgeries, on 6 skeletons; bit flips with stride 3 on one curve", "thorough": "+ every field (11 points, 3 scalars, 4 round points, a, b) of a padded-4 two-phase proof, 3 curves"},
+    "C05": {"quick": "28 deviations on circuits with <= 3 commitments and <= 2 gates (incl. commitment-framed application data, a small-order component on curve25519, a deviation inside the first of two randomized closures, an extra / missing commitment that equals one already present); 3 searches with a symbolic shift on EVERY constant (EVERY coefficient) of the verifier's statement at once (<= 5 constraints over both phases); concrete companion: the coefficient / constant deviations natively, alone and as a +d / -d pair of statements in one batch", "thorough": "+ 5 deviations on a padded-4 two-phase circuit with 3 commitments, 3 curves"},
     "C06": {"quick": "C01 quick skeletons + identity commitment (19), honest run and verifier-on-arbitrary-proof", "thorough": "C01 thorough skeletons + EVERY call sequence with <= 3 first-phase and <= 2 second-phase calls (3276), 3 curves each"},
-    "C07": {"quick": "12 batches, k <= 3, members honest / arbitrary / structurally invalid, padded sizes 1..4, growth past a power of two in the randomized phase in either position", "thorough": "+ batches of 4 and 5, 3 curves"},
-    "C09": {"quick": "7 skeletons (0..3 gates, up to 3 commitments, second phase with 0, 2, 3 gates)", "thorough": "+ every symbolic-coefficient C01 thorough skeleton + EVERY call sequence with <= 3 first-phase and <= 2 second-phase calls (3276), 3 curves each"},
-    "C10": {"quick": "k = 0..3 honest with symbolic factors, k = 0..4 arbitrary proof objects, unit / sparse / 0-1 / all-zero variants, 2 degenerate cases; concrete companion: negative cases (wrong product, shifted scalars, forged last round, wrong lengths) on 3 instances x 3 curves, with P shifted by points of order 2, 4, 8 on curve25519", "thorough": "k = 0..7 honest with symbolic factors (n = 128), k = 0..7 arbitrary proof objects, unit-factor k = 7: the full range of the property text"},
-    "C13": {"quick": "no size bound (loop-free); symbolic v, r, k on default and arbitrary bases; 5 literal sets with 0, 1, -1, values above 2^64 and structured limb patterns; 3 curves", "thorough": "same"},
+    "C07": {"quick": "16 batches, k <= 3, members honest / arbitrary / structurally invalid, padded sizes 1..4 and gate-free members only, growth past a power of two in the randomized phase in either position; concrete companion on 3 batches: verdict vs individual verdicts, correlated offsets on 2..4 copies, batches of 9 and 17 copies with one altered member first / middle / last", "thorough": "+ batches of 4 and 5, 3 curves"},
+    "C09": {"quick": "8 skeletons (0..3 gates, up to 3 commitments, second phase with 0, 1, 2, 3 gates); RNG keying from the Merlin log and from the byte log of the caller's RNG", "thorough": "+ every symbolic-coefficient C01 thorough skeleton + EVERY call sequence with <= 3 first-phase and <= 2 second-phase calls (3276), 3 curves each"},
+    "C10": {"quick": "k = 0..3 honest with symbolic factors, k = 0..4 arbitrary proof objects, unit / sparse / 0-1 / all-zero variants, unit vectors and every-fourth-position vectors at k = 3, 4, 2 degenerate cases; follow-up challenge of the two transcripts; concrete companion: negative cases (wrong product, shifted scalars, forged last round, wrong lengths) on 3 instances x 3 curves, with P shifted by points of order 2, 4, 8 on curve25519", "thorough": "k = 0..7 honest with symbolic factors (n = 128), k = 0..7 arbitrary proof objects, unit-factor k = 7: the full range of the property text"},
+    "C13": {"quick": "no size bound (loop-free); symbolic v, r, k on default, arbitrary and identity bases; 10 literal sets with 0, 1, -1, values above 2^64 and structured limb patterns on default / arbitrary / identity-value / identity-blinding bases and (curve25519) bases with a small-order component; 3 curves; concrete companion of the literal variants on the plain curves against double-and-add on the group law", "thorough": "same"},
     "C15": {"quick": "3 batches of 30 seeded trees (depth <= 3, <= 6 variables) + 20 pipeline circuits (accept / offset pairs; two of the ten use an expression without any variable leaf)", "thorough": "12 batches of 60 trees + 80 pipeline circuits"},
     "C16": {"quick": "Engine S: all call sequences with <= 3 first-phase and <= 2 second-phase calls (3276 sequences), second-phase calls in one closure or split over two, the closure registered after all first-phase calls or after any prefix of them; Engine K: see kani section", "thorough": "Engine S: <= 5 first-phase and <= 2 second-phase calls (closure registration position varied for <= 3 first-phase calls)"},
     "C17": {"quick": "Engine S: 6 skeletons (0..3 gates, second-phase growth), capacities 0..pad+1 (grid) and {pad, pad+1, 2pad, 4pad} (independence); Engine K: see kani section", "thorough": "+ 3 skeletons up to 6 gates, 3 curves"},
